@@ -309,7 +309,7 @@ func c13Eval(r *vrt.Run, c C13Case) c13Out {
 
 // kinds that satisfy each transform's detector, used to keep "applied" rates up
 var c13Affinity = map[string][]int{
-	"TEXT": {gen.KText, gen.KXML, gen.KRecords}, "UTF": {gen.KUTF8}, "EXE": {gen.KExeX86, gen.KExeARM}, "MM": {gen.KWav, gen.KBmp},
+	"TEXT": {gen.KText, gen.KXML, gen.KRecords, gen.KLatin1, gen.KLatin1}, "UTF": {gen.KUTF8}, "EXE": {gen.KExeX86, gen.KExeARM}, "MM": {gen.KWav, gen.KBmp},
 	"DNA": {gen.KDNA}, "PACK": {gen.KSmallAlpha, gen.KDNA, gen.KNumeric}, "RLT": {gen.KRuns, gen.KZeros}, "ZRLT": {gen.KRuns, gen.KZeros, gen.KSkewed},
 	"LZP": {gen.KRepeat, gen.KText}, "ROLZ": {gen.KText, gen.KRepeat}, "ROLZX": {gen.KText, gen.KDNA, gen.KExeX86},
 }
@@ -353,7 +353,7 @@ func drawC13(t *rapid.T, maxLen int) C13Case {
 // kindDataType is the hint an earlier stage would plausibly have left for this kind of data.
 func kindDataType(kind int) int {
 	switch kind {
-	case gen.KText, gen.KXML, gen.KRecords:
+	case gen.KText, gen.KXML, gen.KRecords, gen.KLatin1:
 		return 1
 	case gen.KWav, gen.KBmp:
 		return 2
@@ -417,7 +417,7 @@ func TestC13(t *testing.T) {
 			base  int
 			delta []int
 		}
-		fam := []dcase{{"ROLZX", 16 << 20, []int{1, 3, 7, 12}}, {"ROLZ", 16 << 20, []int{1, 5, 12}}}
+		fam := []dcase{{"ROLZX", 16 << 20, []int{1, 3, 7, 12}}, {"ROLZ", 16 << 20, []int{1, 5, 12}}, {"BWT", 8 << 20, []int{4097}}, {"BWT", 4 << 20, []int{5}}}
 		if r.Thorough() {
 			all := []int{-1, 0, 1, 2, 3, 4, 5, 6, 7, 8, 9, 10, 11, 12, 13, 4097}
 			fam = []dcase{{"ROLZX", 16 << 20, all}, {"ROLZ", 16 << 20, all}, {"ROLZX", 32 << 20, []int{0, 2, 6, 12}}, {"ROLZ", 32 << 20, []int{2, 6}}}
@@ -429,7 +429,7 @@ func TestC13(t *testing.T) {
 				if !r.Mine(idx) || r.Failed() {
 					continue
 				}
-				c := C13Case{Transform: f.tr, Direct: idx%2 == 0, Entropy: "NONE", DataType: -1, Jobs: 1,
+				c := C13Case{Transform: f.tr, Direct: idx%2 == 0, Entropy: "NONE", DataType: -1, Jobs: uint(1 + (idx/2)%2*3),
 					Data: gen.Recipe{Kind: []int{gen.KText, gen.KRuns, gen.KXML}[idx%3], Len: f.base + d, Seed: uint64(idx), P1: 1}}
 				o := c13Eval(r, c)
 				r.Label("directed:rolz-chunk-boundary")
